@@ -21,8 +21,8 @@ mod v_socket_udp {
     const LOCAL: Ipv4Address = Ipv4Address::new(192, 168, 1, 1);
     const MC: usize = 3; // metadata slots: 1..=3 symbolic
     const PC: usize = 8; // payload ring: 0..=8 symbolic
-    const PL: usize = 6; // datagram size in the prefix: 0..=6
-    const DL: usize = PC + 1; // datagram size of the operation under test: 0..=9 (9 > any capacity)
+    const DL: usize = PC + 1; // datagram sizes: 0..=9 (9 > any capacity: always refused)
+    const V6: bool = true; // IPv6 addresses among the symbolic endpoints
 
     fn pat(tag: u8, i: usize) -> u8 {
         tag.wrapping_mul(7).wrapping_add(i as u8)
@@ -43,10 +43,10 @@ mod v_socket_udp {
     }
 
     // ---------------------------------------------------------------- symbolic addresses
-    fn any_addr(v6: bool) -> IpAddress {
+    fn any_addr() -> IpAddress {
         #[cfg(feature = "proto-ipv6")]
         {
-            if v6 && kani::any() {
+            if V6 && kani::any() {
                 let a: u16 = kani::any();
                 let b: u16 = kani::any();
                 return IpAddress::Ipv6(Ipv6Address::new(a, 0, 0, 0, 0, 0, 0, b));
@@ -56,12 +56,12 @@ mod v_socket_udp {
         IpAddress::Ipv4(Ipv4Address::new(o[0], o[1], o[2], o[3]))
     }
 
-    fn any_ep(v6: bool) -> IpEndpoint {
-        IpEndpoint { addr: any_addr(v6), port: kani::any() }
+    fn any_ep() -> IpEndpoint {
+        IpEndpoint { addr: any_addr(), port: kani::any() }
     }
 
-    fn any_opt_addr(v6: bool) -> Option<IpAddress> {
-        if kani::any() { Some(any_addr(v6)) } else { None }
+    fn any_opt_addr() -> Option<IpAddress> {
+        if kani::any() { Some(any_addr()) } else { None }
     }
 
     fn is_v4(a: &IpAddress) -> bool {
@@ -193,8 +193,8 @@ mod v_socket_udp {
     }
 
     /// bind to a symbolic endpoint with a non-zero port (address: none, IPv4 or IPv6)
-    fn bind_any(s: &mut Socket<'_>, v6: bool) -> IpListenEndpoint {
-        let ep = IpListenEndpoint { addr: any_opt_addr(v6), port: kani::any() };
+    fn bind_any(s: &mut Socket<'_>) -> IpListenEndpoint {
+        let ep = IpListenEndpoint { addr: any_opt_addr(), port: kani::any() };
         kani::assume(ep.port != 0);
         assert!(s.bind(ep).is_ok(), "prop:c09_udp_bind_fresh_socket");
         ep
@@ -211,35 +211,53 @@ mod v_socket_udp {
         }
     }
 
-    // ---------------------------------------------------------------- transmit side
-    /// one symbolic public-API step on the transmit side
-    fn tx_prefix_step(s: &mut Socket<'_>, cx: &mut Context, g: &mut Ghost, bound: &IpListenEndpoint, v6: bool) {
-        let k: u8 = kani::any();
-        if k <= 1 {
-            let size = any_le(PL);
-            let tag: u8 = kani::any();
-            let ep = any_ep(v6);
-            let local = any_opt_addr(v6);
-            kani::assume(version_ok(bound, &ep.addr, &local));
-            if k == 0 {
-                let data = pattern(tag);
-                if s.send_slice(&data[..size], mk_meta(ep, local)).is_ok() {
-                    g.push(tag, size, ep, local, false);
+    // ---------------------------------------------------------------- transmit side: script steps
+    const VIA_SEND: u8 = 0;
+    const VIA_SLICE: u8 = 1;
+    const VIA_WITH: u8 = 2;
+
+    /// One send of a symbolic datagram (size 0..=9: refused when it does not fit, so the step may be a
+    /// no-op) through the API variant `how` (concrete at every call site).
+    fn step_send(s: &mut Socket<'_>, g: &mut Ghost, bound: &IpListenEndpoint, how: u8) -> bool {
+        let size = any_le(DL);
+        let tag: u8 = kani::any();
+        let ep = any_ep();
+        let local = any_opt_addr();
+        kani::assume(version_ok(bound, &ep.addr, &local));
+        let ok = if how == VIA_SEND {
+            match s.send(size, mk_meta(ep, local)) {
+                Ok(buf) => {
+                    fill(buf, tag);
+                    true
                 }
-            } else {
-                let max = any_le(PL);
-                kani::assume(size <= max);
-                if let Ok(n) = s.send_with(max, mk_meta(ep, local), |b| {
-                    fill(&mut b[..size], tag);
-                    size
-                }) {
-                    g.push(tag, n, ep, local, false);
-                }
+                Err(_) => false,
             }
+        } else if how == VIA_SLICE {
+            let data = pattern(tag);
+            s.send_slice(&data[..size], mk_meta(ep, local)).is_ok()
         } else {
-            let r = s.dispatch(cx, |_cx, _pm, _p| Ok::<(), ()>(()));
+            let max = any_le(DL);
+            kani::assume(size <= max);
+            s.send_with(max, mk_meta(ep, local), |b| {
+                fill(&mut b[..size], tag);
+                size
+            })
+            .is_ok()
+        };
+        if ok {
+            g.push(tag, size, ep, local, false);
+        }
+        ok
+    }
+
+    /// One dispatch whose emit succeeds or fails (symbolic); returns whether emit reported success.
+    fn step_dispatch(s: &mut Socket<'_>, cx: &mut Context, g: &mut Ghost) -> bool {
+        let ok: bool = kani::any();
+        let _ = s.dispatch(cx, |_cx, _pm, _p| if ok { Ok(()) } else { Err(()) });
+        if ok {
             g.pop();
         }
+        ok
     }
 
     /// source address the documented rule selects: the datagram's explicit local address, else the
@@ -301,12 +319,13 @@ mod v_socket_udp {
         assert!(o.hdr, "prop:c09_udp_tx_protocol_and_hop_limit");
     }
 
-    /// the transmit queue equals the ghost: every entry is emitted once, whole, in order; then nothing
+    /// The transmit queue equals the ghost: MC dispatches emit exactly the ghost's entries, each once, whole,
+    /// in order (there are at most MC metadata slots, so nothing can hide behind the MC-th entry).
     fn drain_tx(s: &mut Socket<'_>, cx: &mut Context, g: &Ghost, bound: &IpListenEndpoint, hop: u8) {
         assert!(!g.overflow, "prop:c09_udp_tx_more_datagrams_than_metadata_slots");
         let mut i = 0;
-        while i < MC + 1 {
-            let e = if i < MC { g.q[i] } else { GE };
+        while i < MC {
+            let e = g.q[i];
             let (o, r) = dispatch_recording(s, cx, &e, bound, hop, true);
             assert!(r.is_ok(), "prop:c09_udp_dispatch_error_only_from_emit");
             if e.valid {
@@ -318,49 +337,36 @@ mod v_socket_udp {
             }
             i += 1;
         }
-        assert!(s.send_queue() == 0, "prop:c09_udp_tx_empty_after_drain");
     }
 
     macro_rules! tx_setup {
-        ($dev:ident, $iface:ident, $cx:ident, $s:ident, $g:ident, $bound:ident, $hop:ident, $mc:expr, $pc:expr, $v6:expr) => {
+        ($dev:ident, $iface:ident, $cx:ident, $s:ident, $g:ident, $bound:ident, $hop:ident) => {
             env!($dev, $iface, $cx);
-            sock!($s, 1, 0, $mc, $pc);
-            let $bound = bind_any(&mut $s, $v6);
+            sock!($s, 1, 0, any_slots(), any_le(PC));
+            let $bound = bind_any(&mut $s);
             let $hop = any_hop(&mut $s);
             let mut $g = Ghost::new();
-            tx_prefix_step(&mut $s, $cx, &mut $g, &$bound, $v6);
-            tx_prefix_step(&mut $s, $cx, &mut $g, &$bound, $v6);
-            tx_prefix_step(&mut $s, $cx, &mut $g, &$bound, $v6);
         };
     }
 
-    // @harness props=C09 cfg=KG tier=q to=900 mem=8 unwind=11 opts=nomem covers=4 funcs=udp::Socket::send;udp::Socket::send_slice;udp::Socket::dispatch;PacketBuffer::enqueue;PacketBuffer::dequeue_with bounds=tx_metadata_slots_1..=3;_payload_ring_0..=8;_pre-state_=_3_symbolic_send_slice/send_with/dispatch_steps_(size<=6);_datagram_under_test_0..=9_bytes;_endpoints_IPv4_(any)_or_IPv6_(2_symbolic_groups);_one_interface_address
+    // @harness props=C09 cfg=KG tier=q to=900 mem=8 unwind=17 opts=nomem covers=4 funcs=udp::Socket::send_slice;udp::Socket::send;udp::Socket::send_with;udp::Socket::dispatch;PacketBuffer::enqueue;PacketBuffer::dequeue_with bounds=tx_metadata_slots_1..=3;_payload_ring_0..=8;_pre-state_=_send,_send_with,_dispatch,_dispatch_(each_may_be_a_no-op:_sizes_0..=9,_emit_Ok/Err);_datagram_under_test_0..=9_bytes;_endpoints_IPv4_(any)_or_IPv6_(2_symbolic_groups);_one_interface_address
     #[kani::proof]
     pub(crate) fn udp_send() {
-        let v6 = true;
-        tx_setup!(dev, iface, cx, s, g, bound, hop, any_slots(), any_le(PC), v6);
+        tx_setup!(dev, iface, cx, s, g, bound, hop);
+        step_send(&mut s, &mut g, &bound, VIA_SEND);
+        step_send(&mut s, &mut g, &bound, VIA_WITH);
+        step_dispatch(&mut s, cx, &mut g);
+        step_dispatch(&mut s, cx, &mut g);
         let before = g.count();
         let size = any_le(DL);
         let tag: u8 = kani::any();
-        let ep = any_ep(v6);
-        let local = any_opt_addr(v6);
+        let ep = any_ep();
+        let local = any_opt_addr();
         kani::assume(version_ok(&bound, &ep.addr, &local));
         let pcap = s.payload_send_capacity();
         let mcap = s.packet_send_capacity();
-        let via_slice: bool = kani::any();
         let data = pattern(tag);
-        let r = if via_slice {
-            s.send_slice(&data[..size], mk_meta(ep, local))
-        } else {
-            match s.send(size, mk_meta(ep, local)) {
-                Ok(buf) => {
-                    assert!(buf.len() == size, "prop:c09_udp_send_returns_exact_size");
-                    fill(buf, tag);
-                    Ok(())
-                }
-                Err(e) => Err(e),
-            }
-        };
+        let r = s.send_slice(&data[..size], mk_meta(ep, local));
         let unaddr = unspec(&ep.addr) || ep.port == 0;
         match r {
             Ok(()) => {
@@ -369,28 +375,32 @@ mod v_socket_udp {
             }
             Err(SendError::Unaddressable) => assert!(unaddr, "prop:c09_udp_send_unaddressable_only_as_documented"),
             Err(SendError::BufferFull) => {
+                // nothing queued => any datagram up to the payload capacity is accepted
                 assert!(!(before == 0 && size <= pcap), "prop:c09_udp_empty_tx_accepts_up_to_capacity");
             }
         }
         kani::cover!(r.is_ok() && before == 2, "third datagram accepted");
-        kani::cover!(r.is_ok() && before >= 1 && g.popped && s.send_queue() > g.bytes(), "accepted behind a padding record (ring wrapped)");
+        kani::cover!(r.is_ok() && before == 1 && g.popped && s.send_queue() > g.bytes(), "accepted behind a padding record (ring wrapped)");
         kani::cover!(r == Err(SendError::BufferFull) && before >= 1 && before < mcap && size <= pcap, "refused: payload ring too full");
         kani::cover!(r == Err(SendError::BufferFull) && before == mcap, "refused: metadata slots full");
         drain_tx(&mut s, cx, &g, &bound, hop);
     }
 
-    // @harness props=C09 cfg=KG tier=q to=900 mem=8 unwind=11 opts=nomem covers=3 funcs=udp::Socket::send_with;udp::Socket::dispatch;PacketBuffer::enqueue_with_infallible;PacketBuffer::dequeue_with bounds=tx_metadata_slots_1..=3;_payload_ring_0..=8;_pre-state_=_3_symbolic_send_slice/send_with/dispatch_steps_(size<=6);_max_size_0..=9,_written_size<=max_size;_endpoints_IPv4_or_IPv6
+    // @harness props=C09 cfg=KG tier=q to=900 mem=8 unwind=17 opts=nomem covers=3 funcs=udp::Socket::send_with;udp::Socket::send_slice;udp::Socket::dispatch;PacketBuffer::enqueue_with_infallible;PacketBuffer::dequeue_with bounds=tx_metadata_slots_1..=3;_payload_ring_0..=8;_pre-state_=_send_slice,_send_with,_dispatch,_dispatch_(each_may_be_a_no-op);_max_size_0..=9,_written_size<=max_size;_endpoints_IPv4_or_IPv6
     #[kani::proof]
     pub(crate) fn udp_send_with() {
-        let v6 = true;
-        tx_setup!(dev, iface, cx, s, g, bound, hop, any_slots(), any_le(PC), v6);
+        tx_setup!(dev, iface, cx, s, g, bound, hop);
+        step_send(&mut s, &mut g, &bound, VIA_SLICE);
+        step_send(&mut s, &mut g, &bound, VIA_WITH);
+        step_dispatch(&mut s, cx, &mut g);
+        step_dispatch(&mut s, cx, &mut g);
         let before = g.count();
         let max = any_le(DL);
         let take = any_le(DL);
         kani::assume(take <= max);
         let tag: u8 = kani::any();
-        let ep = any_ep(v6);
-        let local = any_opt_addr(v6);
+        let ep = any_ep();
+        let local = any_opt_addr();
         kani::assume(version_ok(&bound, &ep.addr, &local));
         let pcap = s.payload_send_capacity();
         let mcap = s.packet_send_capacity();
@@ -424,33 +434,14 @@ mod v_socket_udp {
         drain_tx(&mut s, cx, &g, &bound, hop);
     }
 
-    // @harness props=C09 cfg=KG tier=q to=900 mem=8 unwind=11 opts=nomem covers=4 funcs=udp::Socket::dispatch;PacketBuffer::dequeue_with bounds=tx_metadata_slots_1..=3;_payload_ring_0..=8;_pre-state_=_3_symbolic_send_slice/send_with/dispatch_steps_(size<=6);_emit_returns_Ok_or_Err;_endpoints_IPv4_or_IPv6
+    // @harness props=C09 cfg=KG tier=q to=900 mem=8 unwind=17 opts=nomem covers=4 funcs=udp::Socket::dispatch;udp::Socket::send_slice;udp::Socket::send_with;PacketBuffer::dequeue_with bounds=tx_metadata_slots_1..=3;_payload_ring_0..=8;_pre-state_=_send_slice,_send_with,_dispatch,_send_slice_(each_may_be_a_no-op);_emit_returns_Ok_or_Err;_endpoints_IPv4_or_IPv6
     #[kani::proof]
     pub(crate) fn udp_dispatch() {
-        dispatch_body(any_slots(), any_le(PC), true);
-    }
-    // @harness props=C09 cfg=KG tier=q to=900 mem=8 unwind=17 opts=nomem covers=4
-    #[kani::proof]
-    pub(crate) fn x_a() {
-        dispatch_body(3, 8, false);
-    }
-    // @harness props=C09 cfg=KG tier=q to=900 mem=8 unwind=17 opts=nomem covers=4
-    #[kani::proof]
-    pub(crate) fn x_b() {
-        dispatch_body(any_slots(), 8, false);
-    }
-    // @harness props=C09 cfg=KG tier=q to=900 mem=8 unwind=17 opts=nomem covers=4
-    #[kani::proof]
-    pub(crate) fn x_c() {
-        dispatch_body(3, any_le(PC), false);
-    }
-    // @harness props=C09 cfg=KG tier=q to=900 mem=8 unwind=17 opts=nomem covers=4
-    #[kani::proof]
-    pub(crate) fn x_d() {
-        dispatch_body(3, 8, true);
-    }
-    fn dispatch_body(mc: usize, pc: usize, v6: bool) {
-        tx_setup!(dev, iface, cx, s, g, bound, hop, mc, pc, v6);
+        tx_setup!(dev, iface, cx, s, g, bound, hop);
+        step_send(&mut s, &mut g, &bound, VIA_SLICE);
+        step_send(&mut s, &mut g, &bound, VIA_WITH);
+        step_dispatch(&mut s, cx, &mut g);
+        step_send(&mut s, &mut g, &bound, VIA_SLICE);
         let before = g.count();
         let head = g.q[0];
         let emit_ok: bool = kani::any();
@@ -466,70 +457,66 @@ mod v_socket_udp {
         } else {
             assert!(!o.seen && r.is_ok(), "prop:c09_udp_tx_no_extra_datagram");
         }
-        kani::cover!(head.valid && !emit_ok && before == 2, "emit Err path taken with two queued");
-        kani::cover!(head.valid && emit_ok && before == 2, "emit Ok pops the head, one remains");
+        kani::cover!(head.valid && !emit_ok && before >= 2, "emit Err path taken with two or more queued");
+        kani::cover!(head.valid && emit_ok && before == 3, "emit Ok pops the head, two remain");
         kani::cover!(head.valid && emit_ok && s.send_queue() > g.bytes(), "head popped in front of a padding record");
         kani::cover!(head.valid && !is_v4(&head.ep.addr) && head.local.is_none() && bound.addr.is_none(), "IPv6 datagram, source chosen by the interface");
         drain_tx(&mut s, cx, &g, &bound, hop);
     }
 
-    // @harness props=C09,C13 cfg=KG tier=q to=900 mem=8 unwind=11 opts=nomem covers=3 funcs=udp::Socket::poll_at;udp::Socket::send_slice;udp::Socket::dispatch bounds=tx_metadata_slots_1..=3;_payload_ring_0..=8;_state_=_3_symbolic_steps_then_one_send_slice_(<=6)_and_one_dispatch;_poll_at_probed_after_each
+    // @harness props=C09,C13 cfg=KG tier=q to=900 mem=8 unwind=17 opts=nomem covers=3 funcs=udp::Socket::poll_at;udp::Socket::send_slice;udp::Socket::send_with;udp::Socket::dispatch bounds=tx_metadata_slots_1..=3;_payload_ring_0..=8;_script_send_slice,_send_with,_dispatch,_send_slice,_dispatch_(each_may_be_a_no-op);_poll_at_probed_after_every_step
     #[kani::proof]
     pub(crate) fn udp_poll_at() {
-        let v6 = true;
-        tx_setup!(dev, iface, cx, s, g, bound, hop, any_slots(), any_le(PC), v6);
-        let p0 = s.poll_at(cx);
-        assert!((g.count() > 0) == (p0 == PollAt::Now), "prop:c13_udp_poll_at_now_iff_datagram_queued");
-        assert!(p0 == PollAt::Now || p0 == PollAt::Ingress, "prop:c13_udp_poll_at_now_or_ingress");
-        // one more (possibly refused) send and one dispatch: the refused-after-padding state is included
-        let size = any_le(PL);
-        let tag: u8 = kani::any();
-        let ep = any_ep(v6);
-        let local = any_opt_addr(v6);
-        kani::assume(version_ok(&bound, &ep.addr, &local));
-        let data = pattern(tag);
-        let sent = s.send_slice(&data[..size], mk_meta(ep, local)).is_ok();
-        if sent {
-            g.push(tag, size, ep, local, false);
-        }
+        tx_setup!(dev, iface, cx, s, g, bound, hop);
+        assert!(s.poll_at(cx) == PollAt::Ingress, "prop:c13_udp_poll_at_ingress_when_nothing_queued");
+        step_send(&mut s, &mut g, &bound, VIA_SLICE);
         let p1 = s.poll_at(cx);
-        assert!(g.count() == 0 || p1 == PollAt::Now, "prop:c13_udp_poll_at_now_while_datagram_queued");
-        let emit_ok: bool = kani::any();
-        let r = s.dispatch(cx, |_cx, _pm, _p| if emit_ok { Ok(()) } else { Err(()) });
-        if emit_ok {
-            g.pop();
-        }
+        assert!((g.count() > 0) == (p1 == PollAt::Now) && (g.count() == 0) == (p1 == PollAt::Ingress), "prop:c13_udp_poll_at_now_iff_datagram_queued");
+        step_send(&mut s, &mut g, &bound, VIA_WITH);
         let p2 = s.poll_at(cx);
-        assert!(g.count() == 0 || p2 == PollAt::Now, "prop:c13_udp_poll_at_now_while_datagram_queued");
-        assert!(g.count() > 0 || p2 == PollAt::Ingress, "prop:c13_udp_poll_at_ingress_when_nothing_queued");
-        kani::cover!(p0 == PollAt::Now && p2 == PollAt::Ingress, "queue drained: Now -> Ingress");
-        kani::cover!(!sent && !unspec(&ep.addr) && ep.port != 0 && g.count() == 0 && g.popped, "send refused, then the last datagram dispatched");
-        kani::cover!(!emit_ok && g.count() == 2, "emit failed with two queued: still Now");
+        assert!((g.count() > 0) == (p2 == PollAt::Now) && (g.count() == 0) == (p2 == PollAt::Ingress), "prop:c13_udp_poll_at_now_iff_datagram_queued");
+        step_dispatch(&mut s, cx, &mut g);
+        let p3 = s.poll_at(cx);
+        assert!((g.count() > 0) == (p3 == PollAt::Now) && (g.count() == 0) == (p3 == PollAt::Ingress), "prop:c13_udp_poll_at_now_iff_datagram_queued");
+        // a send that may be refused after its padding record was written, then the last datagram leaves
+        let sent = step_send(&mut s, &mut g, &bound, VIA_SLICE);
+        let p4 = s.poll_at(cx);
+        assert!(g.count() == 0 || p4 == PollAt::Now, "prop:c13_udp_poll_at_now_while_datagram_queued");
+        let ok = step_dispatch(&mut s, cx, &mut g);
+        let p5 = s.poll_at(cx);
+        assert!(g.count() == 0 || p5 == PollAt::Now, "prop:c13_udp_poll_at_now_while_datagram_queued");
+        assert!(g.count() > 0 || p5 == PollAt::Ingress, "prop:c13_udp_poll_at_ingress_when_nothing_queued");
+        kani::cover!(p2 == PollAt::Now && p5 == PollAt::Ingress, "queue drained: Now -> Ingress");
+        kani::cover!(!sent && g.count() == 0 && g.popped && ok, "send refused, then the last datagram dispatched");
+        kani::cover!(!ok && g.count() == 2, "emit failed with two queued: still Now");
     }
 
-    // ---------------------------------------------------------------- receive side
-    /// a symbolic datagram for this socket: (ip_repr, udp_repr, tag, size) with `accepts` true
-    fn rx_prefix_step(s: &mut Socket<'_>, cx: &mut Context, g: &mut Ghost, v6: bool) {
-        let k: bool = kani::any();
-        if k {
-            // size > 0 only: acceptance is then visible in the byte count (a padding record alone is
-            // shorter than the datagram), so the ghost is exact
-            let size = any_le(PL);
-            kani::assume(size > 0);
-            let tag: u8 = kani::any();
-            let src = any_ep(v6);
-            let dst = any_addr(v6);
-            kani::assume(is_v4(&src.addr) == is_v4(&dst));
-            let udp = UdpRepr { src_port: src.port, dst_port: kani::any() };
-            let ip = IpRepr::new(src.addr, dst, IpProtocol::Udp, 8 + size, 64);
-            kani::assume(s.accepts(cx, &ip, &udp));
-            let before = s.recv_queue();
-            let data = pattern(tag);
-            s.process(cx, PacketMeta::default(), &ip, &udp, &data[..size]);
-            if s.recv_queue() >= before + size {
-                g.push(tag, size, src, Some(dst), false);
-            }
-        } else {
+    // ---------------------------------------------------------------- receive side: script steps
+    /// One accepted datagram (size 1..=9, dropped as a whole when it does not fit, so the step may be a
+    /// no-op).  size > 0: acceptance is then visible in the byte count (a padding record alone is shorter
+    /// than the datagram), which keeps the ghost exact.
+    fn step_process(s: &mut Socket<'_>, cx: &mut Context, g: &mut Ghost) -> bool {
+        let size = any_le(DL);
+        kani::assume(size > 0);
+        let tag: u8 = kani::any();
+        let src = any_ep();
+        let dst = any_addr();
+        kani::assume(is_v4(&src.addr) == is_v4(&dst));
+        let udp = UdpRepr { src_port: src.port, dst_port: kani::any() };
+        let ip = IpRepr::new(src.addr, dst, IpProtocol::Udp, 8 + size, 64);
+        kani::assume(s.accepts(cx, &ip, &udp));
+        let before = s.recv_queue();
+        let data = pattern(tag);
+        s.process(cx, PacketMeta::default(), &ip, &udp, &data[..size]);
+        let ok = s.recv_queue() >= before + size;
+        if ok {
+            g.push(tag, size, src, Some(dst), false);
+        }
+        ok
+    }
+
+    fn step_recv(s: &mut Socket<'_>, g: &mut Ghost) {
+        if kani::any() {
             let _ = s.recv();
             g.pop();
         }
@@ -545,8 +532,8 @@ mod v_socket_udp {
         assert!(!g.overflow, "prop:c09_udp_rx_more_datagrams_than_metadata_slots");
         let mut tail = false;
         let mut i = 0;
-        while i < MC + 1 {
-            let e = if i < MC { g.q[i] } else { GE };
+        while i < MC {
+            let e = g.q[i];
             match s.recv() {
                 Ok((buf, m)) => {
                     assert!(e.valid, "prop:c09_udp_rx_no_extra_datagram");
@@ -566,32 +553,31 @@ mod v_socket_udp {
             }
             i += 1;
         }
-        assert!(s.recv_queue() == 0 && !s.can_recv(), "prop:c09_udp_rx_empty_after_drain");
         tail
     }
 
     macro_rules! rx_setup {
-        ($dev:ident, $iface:ident, $cx:ident, $s:ident, $g:ident, $bound:ident, $mc:expr, $pc:expr, $v6:expr) => {
+        ($dev:ident, $iface:ident, $cx:ident, $s:ident, $g:ident, $bound:ident) => {
             env!($dev, $iface, $cx);
-            sock!($s, $mc, $pc, 1, 0);
-            let $bound = bind_any(&mut $s, $v6);
+            sock!($s, any_slots(), any_le(PC), 1, 0);
+            let $bound = bind_any(&mut $s);
             let mut $g = Ghost::new();
-            rx_prefix_step(&mut $s, $cx, &mut $g, $v6);
-            rx_prefix_step(&mut $s, $cx, &mut $g, $v6);
-            rx_prefix_step(&mut $s, $cx, &mut $g, $v6);
         };
     }
 
-    // @harness props=C09 cfg=KG tier=q to=900 mem=8 unwind=11 opts=nomem covers=4 funcs=udp::Socket::process;udp::Socket::accepts;udp::Socket::recv;PacketBuffer::enqueue;PacketBuffer::dequeue bounds=rx_metadata_slots_1..=3;_payload_ring_0..=8;_pre-state_=_3_symbolic_process/recv_steps_(size_1..=6);_datagram_under_test_0..=9_bytes;_IPv4_(any)_or_IPv6_(2_symbolic_groups)_addresses
+    // @harness props=C09 cfg=KG tier=q to=900 mem=8 unwind=17 opts=nomem covers=4 funcs=udp::Socket::process;udp::Socket::accepts;udp::Socket::recv;PacketBuffer::enqueue;PacketBuffer::dequeue bounds=rx_metadata_slots_1..=3;_payload_ring_0..=8;_pre-state_=_process,_process,_recv,_recv_(each_may_be_a_no-op;_sizes_1..=9);_datagram_under_test_0..=9_bytes;_IPv4_(any)_or_IPv6_(2_symbolic_groups)_addresses
     #[kani::proof]
     pub(crate) fn udp_process_recv() {
-        let v6 = true;
-        rx_setup!(dev, iface, cx, s, g, bound, any_slots(), any_le(PC), v6);
+        rx_setup!(dev, iface, cx, s, g, bound);
+        step_process(&mut s, cx, &mut g);
+        step_process(&mut s, cx, &mut g);
+        step_recv(&mut s, &mut g);
+        step_recv(&mut s, &mut g);
         let before = g.count();
         let size = any_le(DL);
         let tag: u8 = kani::any();
-        let src = any_ep(v6);
-        let dst = any_addr(v6);
+        let src = any_ep();
+        let dst = any_addr();
         kani::assume(is_v4(&src.addr) == is_v4(&dst));
         let udp = UdpRepr { src_port: src.port, dst_port: kani::any() };
         let ip = IpRepr::new(src.addr, dst, IpProtocol::Udp, 8 + size, 64);
@@ -602,10 +588,6 @@ mod v_socket_udp {
         s.process(cx, PacketMeta::default(), &ip, &udp, &data[..size]);
         // delivered exactly once with (source endpoint, destination address), or not at all
         g.push(tag, size, src, Some(dst), true);
-        if before == mcap {
-            // no metadata slot: the ghost cannot hold it either; it must have been dropped
-            g.overflow = false;
-        }
         let bytes_after = s.recv_queue();
         let delivered = drain_rx(&mut s, &g);
         if !delivered {
@@ -614,16 +596,19 @@ mod v_socket_udp {
             assert!(before < mcap && size <= pcap, "prop:c09_udp_rx_delivery_within_capacity");
         }
         kani::cover!(delivered && before == 2, "third datagram delivered");
-        kani::cover!(delivered && before >= 1 && g.popped && bytes_after > g.bytes(), "delivered behind a padding record (ring wrapped)");
+        kani::cover!(delivered && before == 1 && g.popped && bytes_after > g.bytes(), "delivered behind a padding record (ring wrapped)");
         kani::cover!(!delivered && before >= 1 && before < mcap && size <= pcap, "dropped whole: payload ring too full");
         kani::cover!(!delivered && before == mcap, "dropped whole: metadata slots full");
     }
 
-    // @harness props=C09 cfg=KG tier=q to=900 mem=8 unwind=11 opts=nomem covers=3 funcs=udp::Socket::recv_slice;udp::Socket::recv;udp::Socket::process bounds=rx_metadata_slots_1..=3;_payload_ring_0..=8;_pre-state_=_3_symbolic_process/recv_steps_(size_1..=6);_user_buffer_0..=9_bytes
+    // @harness props=C09 cfg=KG tier=q to=900 mem=8 unwind=17 opts=nomem covers=3 funcs=udp::Socket::recv_slice;udp::Socket::recv;udp::Socket::process bounds=rx_metadata_slots_1..=3;_payload_ring_0..=8;_pre-state_=_process,_process,_recv,_process_(each_may_be_a_no-op;_sizes_1..=9);_user_buffer_0..=9_bytes
     #[kani::proof]
     pub(crate) fn udp_recv_truncated() {
-        let v6 = true;
-        rx_setup!(dev, iface, cx, s, g, bound, any_slots(), any_le(PC), v6);
+        rx_setup!(dev, iface, cx, s, g, bound);
+        step_process(&mut s, cx, &mut g);
+        step_process(&mut s, cx, &mut g);
+        step_recv(&mut s, &mut g);
+        step_process(&mut s, cx, &mut g);
         let head = g.q[0];
         let ulen = any_le(DL);
         let mut ubuf = [0xEEu8; DL];
@@ -644,79 +629,97 @@ mod v_socket_udp {
             }
             Err(RecvError::Exhausted) => assert!(!head.valid, "prop:c09_udp_rx_no_datagram_lost"),
         }
-        kani::cover!(r == Err(RecvError::Truncated) && g.count() == 1, "short user buffer: Truncated, next datagram still queued");
+        kani::cover!(r == Err(RecvError::Truncated) && g.count() >= 1, "short user buffer: Truncated, next datagram still queued");
         kani::cover!(matches!(r, Ok((n, _)) if n == ulen && n >= 3) && g.count() >= 1, "exact-size user buffer");
         kani::cover!(matches!(r, Ok((n, _)) if n < ulen), "larger user buffer");
         drain_rx(&mut s, &g);
     }
 
-    // @harness props=C09 cfg=KG tier=q to=900 mem=8 unwind=11 opts=nomem covers=3 funcs=udp::Socket::peek;udp::Socket::peek_slice;udp::Socket::recv;PacketBuffer::peek bounds=rx_metadata_slots_1..=3;_payload_ring_0..=8;_pre-state_=_3_symbolic_process/recv_steps_(size_1..=6);_user_buffer_0..=9_bytes
+    // @harness props=C09 cfg=KG tier=q to=900 mem=8 unwind=17 opts=nomem covers=3 funcs=udp::Socket::peek;udp::Socket::peek_slice;udp::Socket::recv;PacketBuffer::peek bounds=rx_metadata_slots_1..=3;_payload_ring_0..=8;_pre-state_=_process,_process,_recv,_process_(each_may_be_a_no-op;_sizes_1..=9);_user_buffer_0..=9_bytes
     #[kani::proof]
     pub(crate) fn udp_peek() {
-        let v6 = true;
-        rx_setup!(dev, iface, cx, s, g, bound, any_slots(), any_le(PC), v6);
+        rx_setup!(dev, iface, cx, s, g, bound);
+        step_process(&mut s, cx, &mut g);
+        step_process(&mut s, cx, &mut g);
+        step_recv(&mut s, &mut g);
+        step_process(&mut s, cx, &mut g);
         let head = g.q[0];
-        let via_slice: bool = kani::any();
+        match s.peek() {
+            Ok((buf, m)) => {
+                assert!(head.valid, "prop:c09_udp_rx_no_extra_datagram");
+                assert!(buf.len() == head.len, "prop:c09_udp_rx_datagram_whole_not_merged_not_split");
+                assert!(meta_is(m, &head), "prop:c09_udp_rx_source_endpoint");
+                let k = any_lt(DL);
+                assert!(k >= buf.len() || buf[k] == pat(head.tag, k), "prop:c09_udp_rx_payload_bytes_unmodified");
+            }
+            Err(e) => assert!(e == RecvError::Exhausted && !head.valid, "prop:c09_udp_rx_no_datagram_lost"),
+        }
         let ulen = any_le(DL);
         let mut ubuf = [0xEEu8; DL];
         let mut trunc = false;
-        if via_slice {
-            match s.peek_slice(&mut ubuf[..ulen]) {
-                Ok((n, m)) => {
-                    assert!(head.valid, "prop:c09_udp_rx_no_extra_datagram");
-                    assert!(n == head.len && n <= ulen, "prop:c09_udp_peek_slice_whole_datagram_or_error");
-                    assert!(meta_is(m, &head), "prop:c09_udp_rx_source_endpoint");
-                    let k = any_lt(DL);
-                    assert!(k >= n || ubuf[k] == pat(head.tag, k), "prop:c09_udp_rx_payload_bytes_unmodified");
-                }
-                Err(RecvError::Truncated) => {
-                    assert!(head.valid && ulen < head.len, "prop:c09_udp_truncated_only_when_buffer_too_small");
-                    // documented: "no data is copied into the provided buffer"
-                    let k = any_lt(DL);
-                    assert!(ubuf[k] == 0xEE, "prop:c09_udp_peek_slice_truncated_copies_nothing");
-                    trunc = true;
-                }
-                Err(RecvError::Exhausted) => assert!(!head.valid, "prop:c09_udp_rx_no_datagram_lost"),
+        match s.peek_slice(&mut ubuf[..ulen]) {
+            Ok((n, m)) => {
+                assert!(head.valid, "prop:c09_udp_rx_no_extra_datagram");
+                assert!(n == head.len && n <= ulen, "prop:c09_udp_peek_slice_whole_datagram_or_error");
+                assert!(meta_is(m, &head), "prop:c09_udp_rx_source_endpoint");
+                let k = any_lt(DL);
+                assert!(k >= n || ubuf[k] == pat(head.tag, k), "prop:c09_udp_rx_payload_bytes_unmodified");
             }
-        } else {
-            match s.peek() {
-                Ok((buf, m)) => {
-                    assert!(head.valid, "prop:c09_udp_rx_no_extra_datagram");
-                    assert!(buf.len() == head.len, "prop:c09_udp_rx_datagram_whole_not_merged_not_split");
-                    assert!(meta_is(m, &head), "prop:c09_udp_rx_source_endpoint");
-                    let k = any_lt(DL);
-                    assert!(k >= buf.len() || buf[k] == pat(head.tag, k), "prop:c09_udp_rx_payload_bytes_unmodified");
-                }
-                Err(e) => assert!(e == RecvError::Exhausted && !head.valid, "prop:c09_udp_rx_no_datagram_lost"),
+            Err(RecvError::Truncated) => {
+                assert!(head.valid && ulen < head.len, "prop:c09_udp_truncated_only_when_buffer_too_small");
+                // documented: "no data is copied into the provided buffer"
+                let k = any_lt(DL);
+                assert!(ubuf[k] == 0xEE, "prop:c09_udp_peek_slice_truncated_copies_nothing");
+                trunc = true;
             }
+            Err(RecvError::Exhausted) => assert!(!head.valid, "prop:c09_udp_rx_no_datagram_lost"),
         }
-        kani::cover!(trunc && g.count() == 2, "peek_slice Truncated with two queued");
-        kani::cover!(via_slice && !trunc && head.valid && head.len >= 3, "peek_slice copied the head");
-        kani::cover!(!via_slice && head.valid && g.popped, "peek after an earlier recv");
+        kani::cover!(trunc && g.count() >= 2, "peek_slice Truncated with two queued");
+        kani::cover!(!trunc && head.valid && head.len >= 3, "peek_slice copied the head");
+        kani::cover!(head.valid && g.popped, "peek after an earlier recv");
         // peeking consumes nothing, also when it reported Truncated
         drain_rx(&mut s, &g);
     }
 
-    // @harness props=C09 cfg=KG tier=q to=600 mem=8 unwind=11 opts=nomem covers=4 funcs=udp::Socket::accepts;udp::Socket::bind;udp::Socket::close;udp::Socket::is_open bounds=bound_endpoint_and_packet_addresses_IPv4_(any)_or_IPv6_(2_symbolic_groups);_any_ports;_close_after_2_tx_and_2_rx_steps
+    // can_recv() promises that recv() will hand out a datagram
+    // @harness props=C09 cfg=KG tier=q to=900 mem=8 unwind=17 opts=nomem covers=2 funcs=udp::Socket::can_recv;udp::Socket::recv;udp::Socket::process;PacketBuffer::enqueue bounds=rx_metadata_slots_1..=3;_payload_ring_0..=8;_script_process,_process,_recv,_process,_recv_(each_may_be_a_no-op;_sizes_1..=9)
+    #[kani::proof]
+    pub(crate) fn udp_can_recv() {
+        rx_setup!(dev, iface, cx, s, g, bound);
+        step_process(&mut s, cx, &mut g);
+        step_process(&mut s, cx, &mut g);
+        step_recv(&mut s, &mut g);
+        let third = step_process(&mut s, cx, &mut g);
+        step_recv(&mut s, &mut g);
+        let can = s.can_recv();
+        let got = s.recv().is_ok();
+        assert!(got == (g.count() > 0), "prop:c09_udp_rx_no_datagram_lost");
+        assert!(can == got, "prop:c09_udp_can_recv_iff_recv_succeeds");
+        kani::cover!(!third && g.count() == 0 && g.popped, "third datagram dropped, then the queue read empty");
+        kani::cover!(can && g.count() == 2, "two queued");
+    }
+
+    // @harness props=C09 cfg=KG tier=q to=600 mem=8 unwind=17 opts=nomem covers=4 funcs=udp::Socket::accepts;udp::Socket::bind;udp::Socket::close;udp::Socket::is_open bounds=bound_endpoint_and_packet_addresses_IPv4_(any)_or_IPv6_(2_symbolic_groups);_any_ports;_close_after_2_sends_and_2_received_datagrams
     #[kani::proof]
     pub(crate) fn udp_accepts_bind_close() {
-        let v6 = true;
         env!(dev, iface, cx);
         sock!(s, any_slots(), any_le(PC), any_slots(), any_le(PC));
         assert!(!s.is_open(), "prop:c09_udp_new_socket_closed");
-        let ep1 = IpListenEndpoint { addr: any_opt_addr(v6), port: kani::any() };
+        let ep1 = IpListenEndpoint { addr: any_opt_addr(), port: kani::any() };
         let r1 = s.bind(ep1);
         // documented: Unaddressable iff port zero; fresh socket otherwise binds
         assert!(r1 == if ep1.port == 0 { Err(BindError::Unaddressable) } else { Ok(()) }, "prop:c09_udp_bind_result_as_documented");
         assert!(s.is_open() == r1.is_ok(), "prop:c09_udp_open_iff_bound");
-        // an unbound socket accepts nothing and sends nothing
-        let src = any_ep(v6);
-        let dst = any_addr(v6);
+        let src = any_ep();
+        let dst = any_addr();
         kani::assume(is_v4(&src.addr) == is_v4(&dst));
         let udp = UdpRepr { src_port: src.port, dst_port: kani::any() };
         let ip = IpRepr::new(src.addr, dst, IpProtocol::Udp, 8, 64);
         let acc = s.accepts(cx, &ip, &udp);
+        let mut gt = Ghost::new();
+        let mut gr = Ghost::new();
         if r1.is_err() {
+            // an unbound socket accepts nothing (UDP datagrams to port 0 do not exist) and sends nothing
             assert!(!acc || udp.dst_port == 0, "prop:c09_udp_unbound_socket_accepts_nothing");
             assert!(s.send_slice(&[1, 2], mk_meta(IpEndpoint { addr: IpAddress::Ipv4(LOCAL), port: 7 }, None)) == Err(SendError::Unaddressable),
                     "prop:c09_udp_unbound_socket_sends_nothing");
@@ -729,24 +732,19 @@ mod v_socket_udp {
             assert!(acc == (udp.dst_port == ep1.port && addr_ok), "prop:c09_udp_accepts_iff_bound_endpoint_matches");
             assert!(s.endpoint() == ep1, "prop:c09_udp_bind_records_endpoint");
             // binding twice is an error and changes nothing
-            let ep2 = IpListenEndpoint { addr: any_opt_addr(v6), port: kani::any() };
+            let ep2 = IpListenEndpoint { addr: any_opt_addr(), port: kani::any() };
             let r2 = s.bind(ep2);
             assert!(r2 == if ep2.port == 0 { Err(BindError::Unaddressable) } else { Err(BindError::InvalidState) }, "prop:c09_udp_bind_twice_errors");
             assert!(s.endpoint() == ep1, "prop:c09_udp_failed_bind_keeps_endpoint");
+            // fill both directions
+            step_send(&mut s, &mut gt, &ep1, VIA_SLICE);
+            step_send(&mut s, &mut gt, &ep1, VIA_SLICE);
+            step_process(&mut s, cx, &mut gr);
+            step_process(&mut s, cx, &mut gr);
         }
         kani::cover!(r1.is_ok() && acc && ep1.addr.is_some() && ep1.addr != Some(dst), "bound to an address, broadcast/multicast destination accepted");
         kani::cover!(r1.is_ok() && !acc && udp.dst_port == ep1.port, "right port, wrong address");
         kani::cover!(r1.is_ok() && acc && !is_v4(&dst), "IPv6 datagram accepted");
-        // fill both directions, then close
-        let bound = s.endpoint();
-        let mut gt = Ghost::new();
-        let mut gr = Ghost::new();
-        tx_prefix_step(&mut s, cx, &mut gt, &bound, v6);
-        tx_prefix_step(&mut s, cx, &mut gt, &bound, v6);
-        if r1.is_ok() {
-            rx_prefix_step(&mut s, cx, &mut gr, v6);
-            rx_prefix_step(&mut s, cx, &mut gr, v6);
-        }
         kani::cover!(gt.count() == 2 && gr.count() >= 1, "closed with datagrams queued both ways");
         s.close();
         assert!(!s.is_open() && s.endpoint() == IpListenEndpoint::default(), "prop:c09_udp_close_unbinds");
@@ -771,36 +769,32 @@ mod v_socket_udp {
 
     // A datagram whose explicit local address (or the socket's bound address) has the other IP version than
     // its destination is accepted by `send`; `dispatch` (i.e. `Interface::poll`) must not panic on it.
-    // @harness props=C09 cfg=KG tier=q to=600 mem=8 unwind=11 opts=nomem covers=2 funcs=udp::Socket::send_slice;udp::Socket::dispatch;IpRepr::new bounds=one_datagram_<=6_bytes;_local/bound_address_and_destination_of_different_IP_versions
+    // @harness props=C09 cfg=KG tier=q to=600 mem=8 unwind=17 opts=nomem covers=2 funcs=udp::Socket::send_slice;udp::Socket::dispatch;IpRepr::new bounds=one_datagram_<=9_bytes;_local/bound_address_and_destination_of_different_IP_versions
     #[cfg(feature = "proto-ipv6")]
     #[kani::proof]
     pub(crate) fn udp_version_mismatch() {
-        let v6 = true;
         env!(dev, iface, cx);
         sock!(s, 1, 0, 2, PC);
-        let bound = bind_any(&mut s, v6);
-        let size = any_le(PL);
-        let ep = any_ep(v6);
-        let local = any_opt_addr(v6);
+        let bound = bind_any(&mut s);
+        let size = any_le(DL);
+        let ep = any_ep();
+        let local = any_opt_addr();
         kani::assume(!version_ok(&bound, &ep.addr, &local));
         let data = pattern(1);
         let sent = s.send_slice(&data[..size], mk_meta(ep, local)).is_ok();
         kani::cover!(sent && local.is_some(), "accepted: explicit local address of the other IP version");
         kani::cover!(sent && local.is_none(), "accepted: bound address of the other IP version");
-        let mut seen = false;
         // either refused by send, or dropped / emitted by dispatch: never a panic in the poll path
-        let r = s.dispatch(cx, |_cx, _pm, (ip, _udp, _payload)| {
-            seen = true;
-            Ok::<(), ()>(())
-        });
+        let r = s.dispatch(cx, |_cx, _pm, _p| Ok::<(), ()>(()));
         assert!(r.is_ok(), "prop:c09_udp_dispatch_error_only_from_emit");
     }
 
-    // @harness props=C09 kind=mustfail cfg=KG tier=q to=600 mem=8 unwind=11 opts=nomem
+    // @harness props=C09 kind=mustfail cfg=KG tier=q to=600 mem=8 unwind=17 opts=nomem
     #[kani::proof]
     pub(crate) fn udp_must_fail() {
-        let v6 = true;
-        tx_setup!(dev, iface, cx, s, g, bound, hop, any_slots(), any_le(PC), v6);
+        tx_setup!(dev, iface, cx, s, g, bound, hop);
+        step_send(&mut s, &mut g, &bound, VIA_SLICE);
+        step_send(&mut s, &mut g, &bound, VIA_SLICE);
         let head = g.q[0];
         let (o, r) = dispatch_recording(&mut s, cx, &head, &bound, hop, false);
         // false: a failed emit does NOT remove the head
